@@ -37,7 +37,7 @@ ASSUMPTIONS = [
 ]
 TIERS = {"quick": (120, 80, 150), "thorough": (8000, 600, 200)}
 TOL = 1e-9
-OPS = ["setNumberDensity", "updateNumberDensities", "setNumberDensities", "changeNDensByFactor", "setMassFrac", "addMass", "setMass", "removeMass"]
+OPS = ["setNumberDensity", "updateNumberDensities", "setNumberDensities", "changeNDensByFactor", "setMassFrac", "addMass", "setMass", "removeMass", "adjustMassFrac"]
 
 
 def gen_plan(rng, index, tier):
@@ -494,6 +494,33 @@ class Runner:
                 a, b = rest[0], rest[-1]
                 if mf1.get(b) and not rel(mf1[a] / mf1[b], mf0[a] / mf0[b], 1e-8):
                     self.fail("C02.readback", f"step {k}: setMassFrac at {lvl} level changed the proportion {a}/{b}: {mf0[a] / mf0[b]} -> {mf1[a] / mf1[b]}", what="proportions", op=op, level=lvl)
+        elif op == "adjustMassFrac":
+            # one nuclide gets a new mass fraction while an element (given by name, held as isotopes) keeps its own
+            if not any(v > 0 for v in before.values()):
+                return False
+            mf0 = {n: float(v) for n, v in obj.getMassFracs().items()}
+            held = [n for n in mf0 if n.startswith("ZR") and mf0[n] > 0]
+            if not held or nuc in held or mf0.get(nuc, 0.0) <= 0 or not float(obj.density()):
+                return False
+            rest = [n for n in mf0 if n != nuc and n not in held and mf0[n] > 0]
+            fr = min(st["frac"], 0.9 * (1.0 - sum(mf0[n] for n in held)))
+            if not rest:
+                return False
+            rho0 = float(obj.density())
+            obj.adjustMassFrac(nuclideToAdjust=nuc, elementToHoldConstant="ZR", val=fr)
+            mf1 = {n: float(v) for n, v in obj.getMassFracs().items()}
+            if not rel(mf1.get(nuc, 0.0), fr, 1e-8):
+                self.fail("C02.readback", f"step {k}: adjustMassFrac({nuc}, hold ZR, {fr}) at {lvl} level reads back {mf1.get(nuc, 0.0)}", what="massfrac", op=op, level=lvl)
+            for n in held:
+                if not rel(mf1.get(n, 0.0), mf0[n], 1e-8):
+                    self.fail("C02.readback", f"step {k}: adjustMassFrac({nuc}, hold ZR) at {lvl} level changed the held {n}: {mf0[n]} -> {mf1.get(n, 0.0)}", what="held", op=op, level=lvl)
+                    break
+            if not rel(float(obj.density()), rho0, 1e-8):
+                self.fail("C02.readback", f"step {k}: adjustMassFrac at {lvl} level changed the total density {rho0} -> {float(obj.density())}", what="density", op=op, level=lvl)
+            if len(rest) >= 2 and mf1.get(rest[-1]):
+                a_, b_ = rest[0], rest[-1]
+                if not rel(mf1[a_] / mf1[b_], mf0[a_] / mf0[b_], 1e-8):
+                    self.fail("C02.readback", f"step {k}: adjustMassFrac at {lvl} level changed the proportion {a_}/{b_}", what="proportions", op=op, level=lvl)
         elif op in ("addMass", "setMass", "removeMass"):
             m = st["mass"]
             if op == "removeMass":
